@@ -5,7 +5,9 @@ import vlib, netlib
 FULL = 64 + 28          # greeting + shortest READY the scripted clients send
 
 def scenario(stype, transport, offsets, kinds, scen):
-    ops = [{"op": "bind", "name": "a", "ep": netlib.ep(transport, "h%d" % scen)},
+    # the monitor is asked for before the bind, only after it, or before and again after it (the later stream replaces the earlier)
+    mon = scen % 3
+    ops = [{"op": "bind", "name": "a", "ep": netlib.ep(transport, "h%d" % scen)}] + ([{"op": "install_monitor"}] if mon else []) + [
            {"op": "client", "k": 1, "name": "a", "kind": "good"},              # before
            {"op": "sleep", "ms": 30}, {"op": "exchange", "k": 1}]
     nbad = 0
@@ -18,7 +20,10 @@ def scenario(stype, transport, offsets, kinds, scen):
             {"op": "probe", "name": "a", "handshake": True},                   # after
             {"op": "monitor", "expect_failed": nbad},
             {"op": "exchange", "k": 1}]
-    return {"scen": scen, "sock": stype, "ops": ops, "tag": "%s/%s@%s" % (transport, "+".join(kinds), "+".join(map(str, offsets)))}
+    sc = {"scen": scen, "sock": stype, "ops": ops, "tag": "%s/%s@%s/mon%d" % (transport, "+".join(kinds), "+".join(map(str, offsets)), mon)}
+    if mon == 1:
+        sc["monitor_at"] = "later"
+    return sc
 
 def run(chk, replay=None):
     chk.rule = ("cases = on every bindable socket type over real TCP and IPC: 1-3 simultaneous raw clients that stop sending / close / switch to garbage at byte offset k of "
